@@ -290,7 +290,7 @@ class Gen:
         try:
             body = fn()
             if rtype.replace('(', '').startswith('Z'): body = '(' + body + ')%Z'
-            self.defs.append('(* %s *)\nDefinition %s %s : %s :=\n  %s.\n' % (origin, name, binders, rtype, body))
+            self.defs.append('(* %s *)\nDefinition %s %s : %s :=\n  %s.\n' % (origin.replace('*)', '* )').replace('(*', '( *'), name, binders, rtype, body))
         except (XErr, ValueError, AssertionError, IndexError) as ex:
             self.failed.append((name, origin, str(ex)))
             self.defs.append('(* %s : NOT TRANSLATED: %s *)\n' % (name, str(ex).replace('*)', '* )')))
@@ -992,6 +992,26 @@ def gen_views(repo):
     G.define('gen_noalias_branches', '', 'list (nat * nat * nat * bool)', noalias_census,
              'expressions/views/*.h: the `if (_does_alias)` branch of every assignment operator: (file, operator of the overload, operator applied to the staged temporary, '
              'guarded by `#if !(FASTOR_NO_ALIAS)`); the branch stages its own argument into a copy (evaluated on the untouched original) and applies the operator to it')
+    # ---- right-hand sides that are evaluated first: the forwarding overload of every assignment operator of every view class
+    def evalrhs_census():
+        import glob
+        OPC = {'=': 0, '+=': 1, '-=': 2, '*=': 3, '/=': 4}
+        items = []
+        for fi, f in enumerate(sorted(glob.glob(os.path.join(repo, 'Fastor', 'expressions', 'views', '*.h')))):
+            txt = strip_comments(open(f).read())
+            for m in re.finditer(r'template\s*<([^;{}]*?requires_evaluation_v\s*<\s*Derived\s*>[^;{}]*?)>\s*(?:FASTOR_\w+\s+)*void\s+operator\s*(=|\+=|-=|\*=|/=)\s*\(([^)]*)\)\s*\{', txt):
+                if re.search(r'!\s*requires_evaluation_v', m.group(1)): continue
+                i = m.end() - 1; j = match_close(txt, i); body = ' '.join(txt[i + 1:j].split())
+                arg = re.findall(r'(\w+)\s*$', m.group(3).strip())
+                mm = re.fullmatch(r'const typename Derived::result_type& tmp = evaluate\((\w+)\.self\(\)\); this->operator(=|\+=|-=|\*=|/=)\(tmp\);', body)
+                if not mm: raise XErr('%s: the evaluate-first overload of operator%s has another shape: %s' % (os.path.basename(f), m.group(2), body[:120]))
+                if not arg or mm.group(1) != arg[0]: raise XErr('%s: the evaluate-first overload of operator%s evaluates %s, not its argument' % (os.path.basename(f), m.group(2), mm.group(1)))
+                items.append('(%d, %d, %d)' % (fi, OPC[m.group(2)], OPC[mm.group(2)]))
+        if len(items) < 60: raise XErr('only %d evaluate-first overloads found' % len(items))
+        return '[' + '; '.join(items) + ']%nat'
+    G.define('gen_evalrhs_forwards', '', 'list (nat * nat * nat)', evalrhs_census,
+             'expressions/views/*.h: every assignment-operator overload selected for a right-hand side that must be evaluated first (requires_evaluation_v<Derived>): '
+             '(file, operator of the overload, operator applied to the evaluated temporary); the body evaluates its own argument and forwards')
     # ---- tensor/BlockIndexing.h: flat indices precomputed by the index-tensor overloads of operator()
     BI = 'tensor/BlockIndexing.h'
     batoms = [(r'_it0\s*\(\s*i\s*\)', 'a', 'n'), (r'_it1\s*\(\s*j\s*\)', 'b', 'n'), (r'_it0\s*\(\s*j\s*\)', 'b', 'n'),
@@ -1165,10 +1185,308 @@ def gen_access(repo):
         return fn
     for nm in ('all_of', 'any_of', 'none_of'):
         G.define('gen_pred_%s' % nm, '', 'list bool', pred(nm), AF + ': %s(expr): [initial value; element value that triggers the exit; value returned on exit]' % nm)
+    # ---- tensor/TensorAssignment.h + TensorInplaceOperators.h: the loops every elementwise assignment to a tensor runs
+    TA = 'tensor/TensorAssignment.h'; TI = 'tensor/TensorInplaceOperators.h'
+    OPN = {'': 0, '_add': 1, '_sub': 2, '_mul': 3, '_div': 4}; OPS = {'=': 0, '+': 1, '-': 2, '*': 3, '/': 4}
+    def nospace(t): return re.sub(r'\s+', '', t)
+    def ta_expr():
+        txt = strip_comments(G.src(TA)); items = []
+        for m in re.finditer(r'FASTOR_INLINE\s+void\s+trivial_assign(_add|_sub|_mul|_div|)\s*\(AbstractTensor<Derived,DIM>\s*&dst,\s*const\s+AbstractTensor<OtherDerived,OtherDIM>\s*&src_\)\s*\{', txt):
+            i = m.end() - 1; j = match_close(txt, i); b = nospace(txt[i + 1:j])
+            al = r'dst\.self\(\)\.is_aligned\(\)'
+            vplain = r'src\.templateeval<T>\(i\)\.store\(&_data\[i\],' + al + r'\);'
+            vcomp = r'V_vec=V\(&_data\[i\],' + al + r'\)([-+*/])src\.templateeval<T>\(i\);_vec\.store\(&_data\[i\],' + al + r'\);'
+            sst = r'_data\[i\]([-+*/]?)=src\.templateeval_s<T>\(i\);'
+            pat = (r'usingT=typenameDerived::scalar_type;usingV=typenameDerived::simd_vector_type;constOtherDerived&src=src_\.self\(\);'
+                   r'FASTOR_ASSERT\(src\.size\(\)==dst\.self\(\)\.size\(\),"[^"]*"\);T\*_data=dst\.self\(\)\.data\(\);'
+                   r'FASTOR_IF_CONSTEXPR\(!is_boolean_expression_v<OtherDerived>\)\{FASTOR_INDEXi=0;'
+                   r'for\(;i<ROUND_DOWN\(src\.size\(\),V::Size\);i\+=V::Size\)\{(?:' + vplain + '|' + vcomp + r')\}'
+                   r'for\(;i<src\.size\(\);\+\+i\)\{' + sst + r'\}\}'
+                   r'else\{for\(FASTOR_INDEXi=0;i<src\.size\(\);\+\+i\)\{' + sst + r'\}\}')
+            mm = re.fullmatch(pat, b)
+            if not mm: raise XErr('trivial_assign%s(dst, expression): loop structure not recognised' % m.group(1))
+            vop, sop, bop = mm.groups()
+            items.append('(%d, %d, %d, %d)' % (OPN[m.group(1)], OPS[vop] if vop else 0, OPS[sop] if sop else 0, OPS[bop] if bop else 0))
+        if len(items) != 5: raise XErr('%d trivial_assign*(dst, expression) functions (5 expected)' % len(items))
+        return '[' + '; '.join(items) + ']'
+    G.define('gen_trivial_assign_expr', '', 'list (nat * nat * nat * nat)', ta_expr,
+             TA + ': trivial_assign[_add|_sub|_mul|_div](dst, expression): (operator named by the function, operator of the vector loop, of the scalar remainder loop, of the '
+             'scalar-only loop of boolean expressions) with 0 =, 1 +, 2 -, 3 *, 4 /; the translator accepts only: vector loop i = 0 .. ROUND_DOWN(size, V::Size) step V::Size '
+             'loading / storing at &_data[i], then scalar loop from there to size at _data[i]; boolean expressions: one scalar loop 0 .. size')
+    def ta_scalar():
+        txt = strip_comments(G.src(TA)); items = []
+        for m in re.finditer(r'FASTOR_INLINE\s+void\s+trivial_assign(_add|_sub|_mul|_div|)\s*\(AbstractTensor<Derived,DIM>\s*&dst,\s*U\s+num\)\s*\{', txt):
+            i = m.end() - 1; j = match_close(txt, i); b = nospace(txt[i + 1:j])
+            al = r'dst\.self\(\)\.is_aligned\(\)'
+            vplain = r'_vec\.store\(&_data\[i\],' + al + r'\);'
+            vcomp = r'V_vec_out\(&_data\[i\],' + al + r'\);_vec_out([-+*/])=_vec;_vec_out\.store\(&_data\[i\],' + al + r'\);'
+            pat = (r'usingT=typenameDerived::scalar_type;usingV=typenameDerived::simd_vector_type;T\*_data=dst\.self\(\)\.data\(\);'
+                   r'Tcnum=(\(T\)num|T\(1\)/\(T\)num);V_vec\(cnum\);FASTOR_INDEXi=0;'
+                   r'for\(;i<ROUND_DOWN\(dst\.self\(\)\.size\(\),V::Size\);i\+=V::Size\)\{(?:' + vplain + '|' + vcomp + r')\}'
+                   r'for\(;i<dst\.self\(\)\.size\(\);\+\+i\)\{_data\[i\]([-+*/]?)=cnum;\}')
+            mm = re.fullmatch(pat, b)
+            if not mm: raise XErr('trivial_assign%s(dst, number): loop structure not recognised' % m.group(1))
+            cn, vop, sop = mm.groups()
+            # which numbers the overload accepts (the reciprocal form must exclude integral numbers)
+            hd = nospace(txt[max(0, m.start() - 200):m.start()])
+            integral = 2 if '!is_integral_v_<U>' in hd else (1 if 'is_integral_v_<U>' in hd else 0)
+            items.append('(%d, %d, %d, %s, %d)' % (OPN[m.group(1)], OPS[vop] if vop else 0, OPS[sop] if sop else 0, 'true' if cn.startswith('T(1)') else 'false', integral))
+        if len(items) != 6: raise XErr('%d trivial_assign*(dst, number) functions (6 expected)' % len(items))
+        return '[' + '; '.join(items) + ']'
+    G.define('gen_trivial_assign_scalar', '', 'list (nat * nat * nat * bool * nat)', ta_scalar,
+             TA + ': trivial_assign[_add|..](dst, number): (operator named by the function, operator of the vector loop, of the scalar remainder loop, the broadcast number is '
+             'the reciprocal T(1)/(T)num, overload restricted to 0 any / 1 integral / 2 non-integral numbers); same loop structure as above')
+    def ta_dispatch():
+        items = []
+        t1 = strip_comments(G.src(TI))
+        for m in re.finditer(r'FASTOR_INLINE\s+auto&\s+operator\s*([-+*/])=\s*\(([^)]*)\)\s*\{', t1):
+            i = m.end() - 1; j = match_close(t1, i); b = nospace(t1[i + 1:j])
+            mm = re.fullmatch(r'(trivial_)?assign(_add|_sub|_mul|_div)\(\*this,(src_\.self\(\)|num)\);return\*this;', b)
+            if not mm: raise XErr('Tensor::operator%s=: body not recognised: %s' % (m.group(1), b[:80]))
+            if (mm.group(3) == 'num') != ('num' in m.group(2)): raise XErr('Tensor::operator%s=: forwards something else than its argument' % m.group(1))
+            items.append('(0, %d, %d)' % (OPS[m.group(1)], OPN[mm.group(2)]))
+        n1 = len(items)
+        t2 = strip_comments(G.src(TA))
+        for m in re.finditer(r'constexpr\s+FASTOR_INLINE\s+void\s+assign(_add|_sub|_mul|_div|)\s*\(AbstractTensor<Derived,DIM>\s*&dst,\s*(?:const\s+Tensor<T,Rest\.\.\.>\s*&src|U\s+num)\)\s*\{', t2):
+            i = m.end() - 1; j = match_close(t2, i); b = nospace(t2[i + 1:j])
+            mm = re.fullmatch(r'(?:if\(dst\.self\(\)\.data\(\)==src\.data\(\)\)return;)?trivial_assign(_add|_sub|_mul|_div|)\(dst\.self\(\),(src|num)\);', b)
+            if not mm: raise XErr('assign%s(dst, tensor/number): body not recognised: %s' % (m.group(1), b[:80]))
+            if 'if(' in b and m.group(1) != '': raise XErr('assign%s: a self-assignment shortcut on a compound operator' % m.group(1))
+            items.append('(1, %d, %d)' % (OPN[m.group(1)], OPN[mm.group(1)]))
+        if n1 != 8 or len(items) != 18: raise XErr('%d in-place operators of Tensor (8 expected), %d assign wrappers (10 expected)' % (n1, len(items) - n1))
+        return '[' + '; '.join(items) + ']'
+    G.define('gen_tensor_assign_dispatch', '', 'list (nat * nat * nat)', ta_dispatch,
+             TI + ' / ' + TA + ': (0, operator of Tensor::operator op=, operator of the assign_* it calls) and (1, operator of assign_*(dst, tensor | number), operator of the trivial_assign_* it calls); '
+             'each forwards its own argument; only plain assign() may return early (same storage)')
+    # ---- the four arithmetic expression nodes as compiled: what each evaluates to
+    def B(x): return 'true' if x else 'false'
+    def node_evaluators(txt, nm, op_re):
+        """txt: space-free text of one binary node definition; returns one tuple per helper / helper_s / thelper / thelper_s overload"""
+        KIND = {'helper': 0, 'helper_s': 1, 'thelper': 2, 'thelper_s': 3}; EV = {'eval': 0, 'eval_s': 1, 'teval': 2, 'teval_s': 3}
+        ARGS = {'FASTOR_INDEXi': (1, 'i'), 'FASTOR_INDEXi,FASTOR_INDEXj': (2, 'i,j'), 'conststd::array<int,DIM0>&as': (3, 'as')}
+        arith = r'(?:std::is_arithmetic<%s>::value|is_primitive_v_<%s>)'
+        pat = (r'template<typenameLExpr,typenameRExpr,typenameU,typenamestd::enable_if<(!?)' + arith % ('LExpr', 'LExpr') + r'&&(!?)' + arith % ('RExpr', 'RExpr') +
+               r',bool>::type=0>FASTOR_INLINE(?:SIMDVector<\w+,\w+>|\w+?)(t?helper(?:_s)?)\((FASTOR_INDEXi|FASTOR_INDEXi,FASTOR_INDEXj|conststd::array<int,DIM0>&as)\)const\{return([^;{}]*);\}')
+        out = []
+        for m in re.finditer(pat, txt):
+            gl = m.group(1) == ''; gr = m.group(2) == ''; kind = KIND[m.group(3)]; ac, an = ARGS[m.group(4)]
+            side = lambda w: r'(?:_%s\.template(t?eval(?:_s)?)<(\w+)>\(([\w,]+)\)|\((\w+)\)_%s)' % (w, w)
+            mm = re.fullmatch(side('lhs') + '(' + op_re + ')' + side('rhs'), m.group(5))
+            if not mm: raise XErr('binary node %s: %s: return expression not recognised: %s' % (nm, m.group(3), m.group(5)[:80]))
+            lk, lty, la, lcast, op, rk, rty, ra, rcast = mm.groups()
+            lnum = lcast is not None; rnum = rcast is not None
+            tys = set(t for t in (lty, lcast, rty, rcast) if t)
+            # the element type named by the evaluators / conversions is U or the node's own scalar_type (EVAL_TYPE); the two coincide wherever the
+            # code compiles (one overload of the arithmetic macro, number OP teval_s<U>, names U where its siblings name EVAL_TYPE)
+            if not tys <= {'U', 'scalar_type', 'FASTOR_BD_OP_EVAL_TYPE', 'EVAL_TYPE'}: raise XErr('binary node %s: %s evaluates in element type(s) %s' % (nm, m.group(3), sorted(tys)))
+            ok = ((lnum or (EV[lk] == kind and la == an)) and (rnum or (EV[rk] == kind and ra == an)))
+            out.append((kind, ac, B(gl), B(gr), op, B(lnum), B(rnum), B(ok)))
+        # every helper must have been recognised: count the helper definitions independently
+        nh = len(re.findall(r't?helper(?:_s)?\((?:FASTOR_INDEX|conststd::array)', txt))
+        if nh != len(out): raise XErr('binary node %s: %d helper definitions, %d recognised' % (nm, nh, len(out)))
+        return out
+    def node_operator_functions(txt, struct_re, nm):
+        """the free functions `operator OP(lhs, rhs)` that build the node: (left parameter is a number, right parameter is a number, node built from (left, right) in that order)"""
+        out = []
+        par = r'(?:constAbstractTensor<T(?:Lhs|Rhs),DIM[01]>&(_lhs|_rhs)|T(?:Lhs|Rhs)(bb))'
+        for m in re.finditer(r'operator(?:OP|[-+*/])\(' + par + ',' + par + r'\)\{return' + struct_re + r'<TLhs,TRhs,[^()]*>\(([\w.()]+),([\w.()]+)\);\}', txt):
+            pl = m.group(1) or m.group(2); pr = m.group(3) or m.group(4)
+            want_l = pl + '.self()' if m.group(1) else pl; want_r = pr + '.self()' if m.group(3) else pr
+            out.append('(%s, %s, %s)' % (B(m.group(2)), B(m.group(4)), B(m.group(5) == want_l and m.group(6) == want_r and pl != pr and (m.group(1) in (None, '_lhs')) and (m.group(3) in (None, '_rhs')))))
+        n = len(re.findall(r'operator(?:OP|[-+*/])\(', txt))
+        if n != len(out) or n < 4: raise XErr('binary node %s: %d operator functions, %d recognised' % (nm, n, len(out)))
+        return out
+    def binop_nodes():
+        items = []
+        KIND = {'helper': 0, 'helper_s': 1, 'thelper': 2, 'thelper_s': 3}; EV = {'eval': 0, 'eval_s': 1, 'teval': 2, 'teval_s': 3}
+        ARGS = {'FASTOR_INDEXi': (1, 'i'), 'FASTOR_INDEXi,FASTOR_INDEXj': (2, 'i,j'), 'conststd::array<int,DIM0>&as': (3, 'as')}
+        # which definitions are compiled: expressions.h includes the macro file (+ - *) and binary_div_op.h (/)
+        inc = re.findall(r'#include\s+"Fastor/expressions/binary_ops/(\w+)\.h"', strip_comments(G.src('expressions/expressions.h')))
+        node_inc = sorted(x for x in inc if x in ('binary_arithmetic_ops', 'binary_add_op', 'binary_sub_op', 'binary_mul_op', 'binary_div_op'))
+        if node_inc != ['binary_arithmetic_ops', 'binary_div_op']: raise XErr('expressions.h includes another set of arithmetic node definitions: %s' % node_inc)
+        mac_src = strip_comments(G.src('expressions/binary_ops/binary_arithmetic_ops.h'))
+        mm0 = re.search(r'#define\s+FASTOR_MAKE_BINARY_ARITHMETIC_OPS\s*\(\s*OP\s*,\s*NAME\s*,\s*EVAL_TYPE\s*\)((?:[^\n]*\\\n)*[^\n]*)', mac_src)
+        if not mm0: raise XErr('FASTOR_MAKE_BINARY_ARITHMETIC_OPS not found')
+        mac_body = mm0.group(1).replace('\\\n', '\n')
+        insts = re.findall(r'^\s*FASTOR_MAKE_BINARY_ARITHMETIC_OPS\s*\(\s*([-+*/])\s*,\s*(\w+)\s*,\s*(\w+)\s*\)', mac_src[mm0.end():], flags=re.M)
+        if [(o, n) for o, n, _ in insts] != [('+', 'Add'), ('-', 'Sub'), ('*', 'Mul')]: raise XErr('instantiations of FASTOR_MAKE_BINARY_ARITHMETIC_OPS: %s' % insts)
+        texts = []
+        for o, n, ty in insts:
+            t = re.sub(r'\bEVAL_TYPE\b', ty, re.sub(r'\bOP\b', o, mac_body))
+            t = re.sub(r'\s*##\s*NAME\s*##\s*', n, t)
+            texts.append((n.lower(), o, t))
+        texts.append(('div', '/', preprocess(strip_comments(G.src('expressions/binary_ops/binary_div_op.h')), set())))
+        for fop, (nm, ch, raw) in enumerate(texts, 1):
+            if not re.search(r'struct\s+Binary%sOp\s*:' % nm.capitalize(), raw): raise XErr('struct Binary%sOp not found in the compiled definition' % nm.capitalize())
+            for t in node_evaluators(nospace(raw), nm, r'[-+*/]'):
+                items.append('(%d, %d, %d, %s, %s, %d, %s, %s, %s)' % ((fop,) + t[:4] + (OPS[t[4]],) + t[5:]))
+        return '[' + (';' + NL).join(items) + ']'
+    G.define('gen_binop_nodes', '', 'list (nat * nat * nat * bool * bool * nat * bool * bool * bool)', binop_nodes,
+             'expressions/binary_ops/binary_arithmetic_ops.h (the macro FASTOR_MAKE_BINARY_ARITHMETIC_OPS expanded for its three instantiations Add, Sub, Mul) and binary_div_op.h (Div, with FASTOR_UNSAFE_MATH not defined) - the definitions expressions.h includes: every helper / helper_s / thelper / thelper_s of the four arithmetic nodes: '
+             '(node 1 + 2 - 3 * 4 /, function 0 eval 1 eval_s 2 teval 3 teval_s, arguments 1 (i) 2 (i,j) 3 (as), overload selected when lhs is a number, when rhs is a number, '
+             'operator in the return expression, left operand is the number (T)_lhs, right operand is the number (T)_rhs, '
+             'both operands are evaluated with the function\'s own evaluator on the function\'s own arguments); left operand comes from _lhs, right from _rhs')
+    def binop_functions():
+        src = strip_comments(G.src('expressions/binary_ops/binary_arithmetic_ops.h'))
+        body, _ = macro_def(src, 'FASTOR_MAKE_BINARY_ARITHMETIC_OPS', ['OP', 'NAME', 'EVAL_TYPE'])
+        a = node_operator_functions(nospace(body), r'Binary##NAME##Op', 'arithmetic macro')
+        d = node_operator_functions(nospace(preprocess(strip_comments(G.src('expressions/binary_ops/binary_div_op.h')), set()).split('struct BinaryDivOp')[1]), r'BinaryDivOp', 'div')
+        return '[' + '; '.join(a + d) + ']'
+    BC = 'expressions/binary_ops/binary_cmp_ops.h'
+    def cmp_evaluators():
+        body, _ = macro_def(strip_comments(G.src(BC)), 'FASTOR_MAKE_BINARY_CMP_TENSOR_OPS_', ['OP', 'NAME', 'EVAL_TYPE'])
+        ev = node_evaluators(nospace(body), 'comparison macro', 'OP')
+        return '[' + (';' + NL).join('(%d, %d, %s, %s, %s, %s, %s)' % (t[:4] + t[5:]) for t in ev) + ']'
+    def cmp_functions():
+        body, _ = macro_def(strip_comments(G.src(BC)), 'FASTOR_MAKE_BINARY_CMP_TENSOR_OPS_', ['OP', 'NAME', 'EVAL_TYPE'])
+        return '[' + '; '.join(node_operator_functions(nospace(body), r'BinaryCmpOp##NAME', 'comparison macro')) + ']'
+    def cmp_rows():
+        rows = macro_rows(strip_comments(G.src(BC)), 'FASTOR_MAKE_BINARY_CMP_TENSOR_OPS_', 3)
+        for r in rows:
+            if r[2] != 'scalar_type': raise XErr('comparison node %s evaluates in %s' % (r[1], r[2]))
+        return '[' + '; '.join('(%s, %s)' % (cstr(r[0]), cstr(r[1])) for r in rows) + ']%string'
+    # ---- expressions/unary_ops/unary_math_ops.h: the elementwise math nodes (one macro, one row per function)
+    UM = 'expressions/unary_ops/unary_math_ops.h'
+    def macro_def(src, name, params):
+        m = re.search(r'#define\s+' + name + r'\s*\(\s*' + r'\s*,\s*'.join(params) + r'\s*\)((?:[^\n]*\\\n)*[^\n]*)', src)
+        if not m: raise XErr('macro %s(%s) not found' % (name, ', '.join(params)))
+        return m.group(1).replace('\\\n', '\n'), m.end()
+    def macro_rows(src, name, n):
+        rows = []
+        for m in re.finditer(r'^[ \t]*' + name + r'[ \t]*\(([^()\n]*)\)', src, flags=re.M):
+            a = [x.strip() for x in m.group(1).split(',')]
+            if len(a) != n: raise XErr('%s(%s): %d arguments' % (name, m.group(1), len(a)))
+            rows.append(a)
+        return rows
+    def cstr(x): return '"%s"' % x
+    def unary_body():
+        src = strip_comments(G.src(UM)); body, _ = macro_def(src, 'FASTOR_MAKE_UNARY_MATH_OPS', ['OP_NAME', 'SIMD_OP', 'SCALAR_OP', 'STRUCT_NAME', 'EVAL_TYPE'])
+        b = nospace(body); items = []
+        EV = {'eval': 0, 'eval_s': 1, 'teval': 2, 'teval_s': 3}
+        pat = (r'FASTOR_INLINE(?:SIMDVector<EVAL_TYPE,simd_abi_type>|EVAL_TYPE)(t?eval(?:_s)?)\((FASTOR_INDEXi|FASTOR_INDEXi,FASTOR_INDEXj|conststd::array<int,DIM0>&as)\)const\{'
+               r'return(SIMD_OP|SCALAR_OP)\(_expr\.template(t?eval(?:_s)?)<EVAL_TYPE>\(([\w,]+)\)\);\}')
+        ARG = {'FASTOR_INDEXi': 'i', 'FASTOR_INDEXi,FASTOR_INDEXj': 'i,j', 'conststd::array<int,DIM0>&as': 'as'}
+        for m in re.finditer(pat, b):
+            items.append('(%d, %d, %d, %s)' % (EV[m.group(1)], 0 if m.group(3) == 'SIMD_OP' else 1, EV[m.group(4)], 'true' if ARG[m.group(2)] == m.group(5) else 'false'))
+        n = len(re.findall(r'FASTOR_INLINE(?:SIMDVector<EVAL_TYPE,simd_abi_type>|EVAL_TYPE)t?eval(?:_s)?\(', b))
+        if n != 6 or len(items) != 6: raise XErr('%d evaluators in the macro, %d recognised (6 expected)' % (n, len(items)))
+        if not re.search(r'FASTOR_INLINEUnary##STRUCT_NAME##Op<Expr,DIM0>OP_NAME\(constAbstractTensor<Expr,DIM0>&_expr\)\{returnUnary##STRUCT_NAME##Op<Expr,DIM0>\(_expr\.self\(\)\);\}', b):
+            raise XErr('the function OP_NAME(expr) does not construct Unary<STRUCT_NAME>Op of its own argument')
+        return '[' + '; '.join(items) + ']'
+    G.define('gen_unary_node_evaluators', '', 'list (nat * nat * nat * bool)', unary_body,
+             UM + ': macro FASTOR_MAKE_UNARY_MATH_OPS: its six evaluators (0 eval 1 eval_s 2 teval 3 teval_s; applies 0 SIMD_OP 1 SCALAR_OP; evaluator called on the operand; at the function\'s own arguments); '
+             'the function OP_NAME builds the node Unary<STRUCT_NAME>Op of its argument')
+    def unary_rows():
+        src = strip_comments(G.src(UM)); rows = macro_rows(src, 'FASTOR_MAKE_UNARY_MATH_OPS', 5)
+        if len(rows) < 30: raise XErr('only %d instantiations of FASTOR_MAKE_UNARY_MATH_OPS' % len(rows))
+        for r in rows:
+            if r[4] != 'scalar_type': raise XErr('unary node %s evaluates in %s' % (r[3], r[4]))
+        return '[' + (';' + NL).join('(%s, %s, %s, %s)' % tuple(cstr(x) for x in r[:4]) for r in rows) + ']%string'
+    G.define('gen_unary_nodes', '', 'list (string * string * string * string)', unary_rows,
+             UM + ': every instantiation of FASTOR_MAKE_UNARY_MATH_OPS: (function, operation applied to SIMD vectors, operation applied to scalars, node name)')
+    def unary_assign_rows():
+        src = strip_comments(G.src(UM)); rows = macro_rows(src, 'FASTOR_MAKE_UNARY_MATH_OP_ASSIGNMENT', 3)
+        body, _ = macro_def(src, 'FASTOR_MAKE_UNARY_MATH_OP_ASSIGNMENT', ['OP', 'NAME', 'ASSIGN_TYPE'])
+        b = nospace(body)
+        want = (r'template<typenameDerived,size_tDIM,typenameOtherDerived,size_tOtherDIM,typenamestd::enable_if<requires_evaluation_v<OtherDerived>,bool>::type=false>'
+                r'FASTOR_INLINEvoidassign##ASSIGN_TYPE\(AbstractTensor<Derived,DIM>&dst,constUnary##NAME##Op<OtherDerived,OtherDIM>&src\)\{'
+                r'assign##ASSIGN_TYPE\(dst\.self\(\),src\.expr\(\)\.self\(\)\);trivial_assign\(dst\.self\(\),OP\(dst\.self\(\)\)\);\}'
+                r'template<typenameDerived,size_tDIM,typenameOtherDerived,size_tOtherDIM,typenamestd::enable_if<!requires_evaluation_v<OtherDerived>,bool>::type=false>'
+                r'FASTOR_INLINEvoidassign##ASSIGN_TYPE\(AbstractTensor<Derived,DIM>&dst,constUnary##NAME##Op<OtherDerived,OtherDIM>&src\)\{'
+                r'trivial_assign##ASSIGN_TYPE\(dst\.self\(\),src\.self\(\)\);\}')
+        if not re.fullmatch(want, b): raise XErr('FASTOR_MAKE_UNARY_MATH_OP_ASSIGNMENT: body not recognised')
+        if len(rows) < 30: raise XErr('only %d instantiations of FASTOR_MAKE_UNARY_MATH_OP_ASSIGNMENT' % len(rows))
+        return '[' + (';' + NL).join('(%s, %s, %s)' % tuple(cstr(x) for x in r) for r in rows) + ']%string'
+    G.define('gen_unary_node_assignments', '', 'list (string * string * string)', unary_assign_rows,
+             UM + ': every instantiation of FASTOR_MAKE_UNARY_MATH_OP_ASSIGNMENT: (operation re-applied to the evaluated operand, node name, assignment kind "" _add _sub _mul _div); '
+             'the macro: operand needs evaluation -> assign<kind>(dst, operand); dst = OP(dst); otherwise trivial_assign<kind>(dst, node)')
+    G.define('gen_binop_functions', '', 'list (bool * bool * bool)', binop_functions,
+             'binary_arithmetic_ops.h (macro) then binary_div_op.h: the free functions operator OP(lhs, rhs) that build the node: (left parameter is a number, right parameter is a number, '
+             'the node is built from (left, right) in that order, tensors through .self())')
+    G.define('gen_cmp_node_evaluators', '', 'list (nat * nat * bool * bool * bool * bool * bool)', cmp_evaluators,
+             BC + ': macro FASTOR_MAKE_BINARY_CMP_TENSOR_OPS_: every helper overload returns [left OP right] with the macro\'s own OP: (function, arguments, selected when lhs is a number, when rhs is a number, '
+             'left operand is the number, right operand is the number, both sides evaluated by the function\'s own evaluator at its own arguments)')
+    G.define('gen_cmp_functions', '', 'list (bool * bool * bool)', cmp_functions, BC + ': the free functions operator OP(lhs, rhs) of the macro (as for the arithmetic nodes)')
+    G.define('gen_cmp_nodes', '', 'list (string * string)', cmp_rows, BC + ': every instantiation of the macro: (operator, node name)')
+    # ---- expressions/linalg_ops: how a lazy linear-algebra node is assigned (the code behind C09)
+    LO = 'expressions/linalg_ops/'
+    def lazy_unary_assign():
+        items = []
+        for fi, (fn, node, kern) in enumerate([('unary_trans_op.h', 'UnaryTransOp', r'_transpose<T,M,N>'), ('unary_ctrans_op.h', 'UnaryCTransOp', r'_ctranspose<T,M,N>'),
+                                               ('unary_adj_op.h', 'UnaryAdjOp', r'internal::adjoint_dispatcher'), ('unary_cof_op.h', 'UnaryCofOp', r'internal::cofactor_dispatcher'),
+                                               ('unary_inv_op.h', 'UnaryInvOp', r'internal::inverse_dispatcher')]):
+            txt = strip_comments(G.src(LO + fn)); n0 = len(items)
+            for m in re.finditer(r'FASTOR_INLINE\s+void\s+assign(_add|_sub|_mul|_div|)\s*\(\s*AbstractTensor<Derived,\s*DIM>\s*&\s*dst\s*,\s*const\s+' + node + r'<Expr,\s*OtherDIM>\s*&\s*src\s*\)\s*\{', txt):
+                i = m.end() - 1; j = match_close(txt, i); b = nospace(txt[i + 1:j])
+                use = r'(?:using\w+=typename[\w:<>,]+;|staticconstexprsize_tM=' + node + r'<Expr,OtherDIM>::M;|staticconstexprsize_tN=' + node + r'<Expr,OtherDIM>::N;)*'
+                head = r'usingresult_type=typenameExpr::result_type;constresult_type&tmp=evaluate\(src\.expr\(\)\.self\(\)\);'
+                arg = r'tmp\.data\(\),%s\.data\(\)' if kern.startswith('_') else r'tmp,%s'
+                if m.group(1) == '':
+                    mm = re.fullmatch(head + use + kern + r'\(' + (arg % r'dst\.self\(\)') + r'\);', b)
+                    if not mm: raise XErr('%s: assign(dst, %s): body not recognised: %s' % (fn, node, b[:100]))
+                    items.append('(%d, 0, 0)' % fi)
+                else:
+                    mm = re.fullmatch(head + use + r"(?:result_type|result_t)(\w+);" + use + kern + r'\(' + (arg % r'(\w+)') + r'\);trivial_assign(_add|_sub|_mul|_div)\(dst\.self\(\),(\w+)\);', b)
+                    if not mm: raise XErr('%s: assign%s(dst, %s): body not recognised: %s' % (fn, m.group(1), node, b[:100]))
+                    if not (mm.group(1) == mm.group(2) == mm.group(4)): raise XErr('%s: assign%s: the staged result is not the tensor that is applied' % (fn, m.group(1)))
+                    items.append('(%d, %d, %d)' % (fi, OPN[m.group(1)], OPN[mm.group(3)]))
+            if len(items) - n0 != 5: raise XErr('%s: %d assign*(dst, %s) functions (5 expected)' % (fn, len(items) - n0, node))
+        return '[' + '; '.join(items) + ']'
+    G.define('gen_lazy_unary_assign', '', 'list (nat * nat * nat)', lazy_unary_assign,
+             LO + 'unary_{trans,ctrans,adj,cof,inv}_op.h: assign[_add|..](dst, node): (node, operator of the function, operator of the trivial_assign applied to the staged result; 0 0 = computed straight into dst). '
+             'The translator accepts only: operand evaluated once into tmp; plain assign: kernel(tmp -> dst); compound: kernel(tmp -> fresh local), then trivial_assign_op(dst, that local); kernel template arguments <T,M,N> with M, N the node\'s own')
+    def lazy_matmul_assign():
+        txt = strip_comments(G.src(LO + 'binary_matmul_op.h')); items = []
+        tv = r'is_tensor_v<remove_all_t<typenameBinaryMatMulOp<TLhs,TRhs,OtherDIM>::%s_expr_type>>'
+        for m in re.finditer(r'template<typename Derived, size_t DIM, typename TLhs, typename TRhs, size_t OtherDIM,\s*typename std::enable_if<([^;{}]*?),\s*bool\s*>::type\s*=\s*false>\s*'
+                             r'FASTOR_INLINE\s+void\s+assign(_add|_sub|_mul|_div|)\s*\(\s*AbstractTensor<Derived,\s*DIM>\s*&\s*dst\s*,\s*const\s+BinaryMatMulOp<TLhs,\s*TRhs,\s*OtherDIM>\s*&\s*src\s*\)\s*\{', txt):
+            g = re.fullmatch(r'(!?)' + tv % 'lhs' + r'&&(!?)' + tv % 'rhs', nospace(m.group(1)))
+            if not g: raise XErr('assign%s(dst, A %% B): guard not recognised: %s' % (m.group(2), nospace(m.group(1))[:100]))
+            lt = g.group(1) == ''; rt = g.group(2) == ''
+            i = m.end() - 1; j = match_close(txt, i); b = nospace(txt[i + 1:j])
+            mm = re.fullmatch(r'(?:using\w+=typenameBinaryMatMulOp<TLhs,TRhs,OtherDIM>::\w+;)*(lhs_ta\(src\.lhs\(\)\.self\(\)\);)?(rhs_tb\(src\.rhs\(\)\.self\(\)\);)?'
+                              r'internal::matmul_dispatcher(_mul|_div|)\((?:\(T\)(-?1),)?(a|src\.lhs\(\)\.self\(\)),(b|src\.rhs\(\)\.self\(\)),(?:\(T\)(-?1),)?dst\.self\(\)\);', b)
+            if not mm: raise XErr('assign%s(dst, A %% B): body not recognised: %s' % (m.group(2), b[:120]))
+            sa, sb, disp, alpha, la, ra, beta = mm.groups()
+            if (la == 'a') != bool(sa) or (ra == 'b') != bool(sb): raise XErr('assign%s(dst, A %% B): staged copies and arguments do not match' % m.group(2))
+            if (alpha is None) != (beta is None): raise XErr('assign%s(dst, A %% B): alpha without beta' % m.group(2))
+            items.append('(%d, %s, %s, %s, %s, %d, (%s)%%Z, (%s)%%Z)' % (OPN[m.group(2)], B(lt), B(rt), B(bool(sa)), B(bool(sb)), {'': 0 if alpha is None else 1, '_mul': 2, '_div': 3}[disp], alpha or '0', beta or '0'))
+        if len(items) != 20: raise XErr('%d assign*(dst, A %% B) functions (20 expected)' % len(items))
+        return '[' + (';' + NL).join(items) + ']'
+    G.define('gen_lazy_matmul_assign', '', 'list (nat * bool * bool * bool * bool * nat * Z * Z)', lazy_matmul_assign,
+             LO + 'binary_matmul_op.h: assign[_add|..](dst, A % B) for one product: (operator, selected when A is a tensor, when B is a tensor, A is first copied into a tensor, B is first copied, '
+             'dispatcher 0 out = A*B, 1 out = alpha*A*B + beta*out, 2 out *= A*B, 3 out /= A*B, alpha, beta); the translator accepts only the operands in the order (A, B) and dst as the output')
+    # ---- expressions/linalg_ops/unary_qr_op.h: row-wise modified Gram-Schmidt, statement by statement
+    def qr_parse():
+        txt = strip_comments(G.src(LO + 'unary_qr_op.h'))
+        body, _ = find_scope(txt, r'void\s+qr_mgsr_dispatcher\s*\(const\s+Tensor<T,M,N>\s*&A0,\s*Tensor<T,M,N>&\s*Q,\s*Tensor<T,M,N>&\s*R\)\s*\{', 0)
+        ix = r'\(([^()]*)\)'
+        pat = (r'Tensor<T,M,N>A\(A0\);R\.fill\(0\);for\(size_ti=0;i<N;\+\+i\)\{'
+               r'TR_ii=0;for\(size_tk=0;k<M;\+\+k\)\{R_ii\+=A' + ix + r'\*A' + ix + r';\}R_ii=sqrts\(R_ii\);R' + ix + r'=R_ii;'
+               r'for\(size_tk=0;k<M;\+\+k\)\{Q' + ix + r'=A' + ix + r'/R_ii;\}'
+               r'for\(size_tk=0;k<M;\+\+k\)\{for\(size_tj=([^;]*);j<N;\+\+j\)\{R' + ix + r'\+=Q' + ix + r'\*A' + ix + r';\}\}'
+               r'for\(size_tk=0;k<M;\+\+k\)\{for\(size_tj=([^;]*);j<N;\+\+j\)\{A' + ix + r'-=Q' + ix + r'\*R' + ix + r';\}\}\}')
+        m = re.fullmatch(pat, nospace(body))
+        if not m: raise XErr('qr_mgsr_dispatcher: statement structure not recognised (copy, R.fill(0), outer loop over columns with steps 1-4)')
+        return m.groups()
+    def qr_indices():
+        g = qr_parse(); env = ids(['i', 'j', 'k']); out = []
+        for t in g[:5] + g[6:9] + g[10:]:
+            a = split_top(t)
+            if len(a) != 2: raise XErr('index list: ' + t)
+            out.append('(%s, %s)' % (translate(a[0], 'nat', env, ())[0], translate(a[1], 'nat', env, ())[0]))
+        return '[' + '; '.join(out) + ']'
+    G.define('gen_qr_mgs_indices', '(i j k : nat)', 'list (nat * nat)', qr_indices,
+             LO + 'unary_qr_op.h qr_mgsr_dispatcher: the (row, column) of every matrix access, source order: step 1 R_ii += A(.)*A(.) over k < M, R(.) = sqrts(R_ii); step 2 Q(.) = A(.)/R_ii over k < M; '
+             'step 3 R(.) += Q(.)*A(.) over k < M, j0 <= j < N; step 4 A(.) -= Q(.)*R(.) over the same range; the translator accepts only this statement structure inside for (i = 0; i < N; ++i), after A = copy of A0 and R.fill(0)')
+    def qr_starts():
+        g = qr_parse(); env = ids(['i'])
+        return '[%s; %s]' % (translate(g[5], 'nat', env, ())[0], translate(g[9], 'nat', env, ())[0])
+    G.define('gen_qr_mgs_inner_start', '(i : nat)', 'list nat', qr_starts, LO + 'unary_qr_op.h qr_mgsr_dispatcher: first column j0 of the inner loops of steps 3 and 4')
     hdr = ('(** GENERATED by lib/cxx2v.py from the C++ source of /repo on every run -- do not edit.\n'
            '    Index expression of every operand / result access of the transpose and matmul kernels;\n'
            '    structure of the reductions and predicates of AbstractTensorFunctions.h. *)\n'
-           'From Coq Require Import Arith List Bool.\nImport ListNotations.\n\n')
+           'From Coq Require Import Arith List Bool String ZArith.\nImport ListNotations.\n\n')
     return G, hdr + '\n'.join(G.defs)
 
 def write_generated(repo, coqdir):
